@@ -11,6 +11,7 @@ import Lockable.Proofs.Commute
 import Lockable.Proofs.SpecTrace
 import Lockable.Proofs.SpecTrace3
 import Lockable.Proofs.Own
+import Lockable.Proofs.Deadlock
 namespace Lockable
 
 /-- No lost wake-up, state form: in every reachable state a free per-key mutex has no sleeping waiter —
@@ -308,5 +309,72 @@ example :
     hold (run s [.release 1]) 2 7 = true ∧
     hold (run s [.release 1, .lookup 3 7, .tryKey 3, .cleanupFailed 3, .snapshot [10, 11]]) 2 7 = true := by
   decide
+
+/-- **"A client whose own lock order is deadlock-free never deadlocks inside the library"** — state form, every reachable state of every
+interleaving, every grouping `owner` of handles into clients (threads, tasks, one client holding many guards, …): if the clients follow
+ordered acquisition (`Ordered`: whoever sleeps on key `k` owns mutexes of smaller keys only; "one key at a time" is the special case)
+and anybody sleeps, then some key with sleepers is owned by a handle whose client sleeps nowhere. So the set of clients is never
+entirely asleep through the library's doing: that client can go on, and its release hands the mutex to the oldest sleeper (`C03_handoff`),
+who keeps it (`C03_grant_stable`). Eventual progress additionally needs a fair scheduler and clients that do release — not a theorem. -/
+theorem C03_ordered_no_deadlock (kind : Kind) (as : List Act) (owner : Nat → Nat) (w : Nat) :
+    let s := run (State.init kind) as
+    Ordered s owner → blockedOn s w →
+    ∃ h hd, s.hs h = some hd ∧ hold s h hd.key = true ∧ hasWaiter s hd.key = true ∧ ¬ ClientBlocked s owner (owner h) :=
+  fun hord hb => ordered_no_deadlock _ (inv_reachable kind as) owner hord w hb
+
+/-- non-vacuity: client 0 owns guard 1 (key 5) and sleeps with acquisition 3 on key 9, which client 1 owns with guard 2: ordered
+(5 < 9), client 0 sleeps, client 1 does not -/
+example :
+    let s := run (State.init .hashMap) [.lookup 1 5, .lookup 2 9, .lookup 3 9, .enqueue 3]
+    let owner : Nat → Nat := fun h => if h = 2 then 1 else 0
+    Ordered s owner ∧ blockedOn s 3 ∧ ClientBlocked s owner 0 ∧ ¬ ClientBlocked s owner 1 := by
+  intro s owner
+  have hs : ∀ w, s.hs w = if w = 3 then some ⟨9, 1, .queued⟩ else if w = 2 then some ⟨9, 1, .holding⟩
+      else if w = 1 then some ⟨5, 0, .holding⟩ else none := by
+    intro w
+    by_cases h3 : w = 3
+    · subst h3; decide
+    · by_cases h2 : w = 2
+      · subst h2; decide
+      · by_cases h1 : w = 1
+        · subst h1; decide
+        · simp only [h3, h2, h1, ↓reduceIte]
+          simp [s, run, step, lookup, enqueue, State.init, upd, State.clone, State.touch, State.setSt, State.setEnt, State.entryOf, h1, h2, h3]
+  have hb3 : blockedOn s 3 := ⟨⟨9, 1, .queued⟩, by decide, rfl, by decide⟩
+  refine ⟨?_, hb3, ⟨3, rfl, hb3⟩, ?_⟩
+  · intro w wd h1 h2 h3 h hd ho h4 h5
+    have hw : w = 3 := by
+      rw [hs w] at h1
+      by_cases e3 : w = 3
+      · exact e3
+      · simp only [e3, ↓reduceIte] at h1
+        split at h1
+        · cases h1; cases h2
+        · split at h1
+          · cases h1; cases h2
+          · cases h1
+    subst hw
+    have hwd : wd = ⟨9, 1, .queued⟩ := by
+      have := hs 3; simp only [↓reduceIte] at this; rw [this] at h1; cases h1; rfl
+    subst hwd
+    have hne2 : h ≠ 2 := by
+      intro e; subst e; simp [owner] at ho
+    rw [hs h] at h4
+    by_cases e3 : h = 3
+    · subst e3; simp only [↓reduceIte] at h4; cases h4
+      have : hold s 3 9 = false := by decide
+      simp only [] at h5; rw [this] at h5; cases h5
+    · simp only [e3, hne2, ↓reduceIte] at h4
+      split at h4
+      · cases h4; decide
+      · cases h4
+  · rintro ⟨w, ho, wd, b1, b2, b3⟩
+    have hw : w = 2 := by
+      by_cases e : w = 2
+      · exact e
+      · simp [owner, e] at ho
+    subst hw
+    have := hs 2; simp only [] at this
+    rw [this] at b1; simp at b1; rw [← b1] at b2; cases b2
 
 end Lockable
